@@ -40,6 +40,10 @@ CLAIMED = {
             "bounded-exhaustive enumeration of (definition shape, call-site list, host, query point, options) with CPython execution before/after as the oracle",
             "4 signatures x 5 body shapes x 3 hosts (defining module, `import`, `from import`) x every list of 1-2 (3) call sites (every positional/keyword/default passing shape x 3 argument forms x 4 contexts) x query at the definition or at each call site x remove/only_current are inlined with the real code, plus InlineVariable and InlineParameter spaces; every performed result is compiled and all modules are run before/after.",
             "behaviour = stdout + exception type of importing every module; bounded shapes", "3/C04"),
+    "C06": ("exploration",
+            "bounded-exhaustive enumeration of (signature, callable kind, call shapes, host, changer sequence); bodies print their locals and CPython runs before/after; expected output derived structurally",
+            "8 signature shapes (defaults, *args, **kw) x 5 callable kinds (function, method on a name, method on an attribute chain, classmethod, constructor) x 3 hosts x every valid call shape (positional/keyword/default/*seq/extra positional/extra keyword) at 1-2 sites x every single changer (thorough: ordered pairs) go through the real ChangeSignature; every function body prints its sorted locals and the result must equal the recorded output with the removed name dropped / the added name bound.",
+            "argument values are constants; expected bindings derived from the recorded run; a request whose resulting signature is illegal must be refused", "3/C06"),
 }
 
 PENDING_REASON = "check not built yet in this session (see DESIGN.md section 8 build order); nothing is claimed for it"
